@@ -509,3 +509,111 @@ func c09Race(c *vrep.Ctx) {
 	}
 	c.R.Exhaustive = false
 }
+
+// c09_access_corpus: the access monitor over the embedded corpus. Concurrent Match calls share no
+// synchronisation, so a write to any monitored location that another call touches is reported
+// from ANY schedule; what has to vary is the path through the code. Every pool document (odd
+// ones edited) is matched by two modelled threads against its neighbour's input, under the
+// default schedule and with the second thread started first.
+func init() { vRegister("c09_access_corpus", c09AccessCorpus) }
+
+func c09AccessCorpus(c *vrep.Ctx) {
+	cl := vEmbeddedCached(0.8)
+	pool := vDocPool(c.Pick(48, 431))
+	var inputs [][]byte
+	for i, d := range pool {
+		t := vParse(d.Bytes)
+		if i%2 == 1 && t.nwords() > 20 {
+			t.apply(vEditSubOOV, t.nwords()/2, i)
+			t.apply(vEditDelete, t.nwords()/3, i)
+		}
+		inputs = append(inputs, []byte(vOOVBlock(1, 3, i)+string(t.bytes())+"\n"+vOOVBlock(1, 2, i+7)))
+	}
+	// the same texts bare (an input no longer than the document takes other branches)
+	nctx := len(inputs)
+	for i := 0; i < nctx; i++ {
+		t := vParse(pool[i].Bytes)
+		if i%2 == 1 && t.nwords() > 20 {
+			t.apply(vEditSubOOV, t.nwords()/2, i)
+			t.apply(vEditDelete, t.nwords()/3, i)
+		}
+		inputs = append(inputs, t.bytes())
+	}
+	c.R.Rule = fmt.Sprintf("access monitor (every field of the package's struct types, slice elements reached through them, every package variable) on the embedded corpus: for each of %d pool documents (every second one edited) two modelled threads call Match / MatchFrom on it and on its neighbour concurrently (in OOV context), and both on the bare text; schedules: first thread first, second thread first, one switch in the middle; no write may be unordered with another call's access, each call returns its solo result; non-trivial = executions in which both calls returned a match", len(pool))
+	c.Bound("documents", len(pool))
+	fired := false
+	soloRes := map[int]string{}
+	solo := func(i int) string {
+		if w, ok := soloRes[i]; ok {
+			return w
+		}
+		soloRes[i] = vFmt(cl.Match(inputs[i]))
+		return soloRes[i]
+	}
+	body := func(r *vx.Run) {
+		i := r.Choose(len(inputs), "document")
+		if r.Scout() {
+			return
+		}
+		order := r.Choose(3, "order") // 0 first caller runs first, 1 second caller first, 2 one switch in the middle of the first
+		j := (i + 1) % len(inputs)
+		if i >= nctx {
+			j = i // bare inputs: both calls on the same text (they score the same documents)
+		}
+		s := vsync.New(r, vsync.Delay)
+		s.Horizon = 50000000
+		n := 0
+		s.YieldFilter = func(site string) bool { n++; return order == 2 && n == 3000 }
+		var got [2]string
+		s.Main(func() {
+			var wg vsync.WaitGroup
+			wg.Add(2)
+			c0 := func() { got[0] = vFmt(cl.Match(inputs[i])); wg.Done() }
+			c1 := func() {
+				res, _ := cl.MatchFrom(bytes.NewReader(inputs[j]))
+				got[1] = vFmt(res)
+				wg.Done()
+			}
+			if order == 1 {
+				vsync.Go("caller1", c1)
+				vsync.Go("caller0", c0)
+			} else {
+				vsync.Go("caller0", c0)
+				vsync.Go("caller1", c1)
+			}
+			wg.Wait()
+		})
+		if s.Accesses > 0 {
+			fired = true
+		}
+		msg := ""
+		switch {
+		case s.Panic != "":
+			msg = "panic in a concurrent Match: " + s.Panic
+		case s.Deadlock != "":
+			msg = s.Deadlock
+		case len(s.Races) > 0:
+			msg = s.Races[0].String()
+		default:
+			if w := solo(i); got[0] != w {
+				msg = fmt.Sprintf("Match(%s) returned %s concurrently, %s alone", pool[i%nctx].Key, got[0], w)
+			}
+			if w := solo(j); got[1] != w {
+				msg = fmt.Sprintf("MatchFrom(%s) returned %s concurrently, %s alone", pool[j%nctx].Key, got[1], w)
+			}
+		}
+		r.Note = map[string]interface{}{"id": fmt.Sprintf("%s || %s (bare=%v)", pool[i%nctx].Key, pool[j%nctx].Key, i >= nctx), "msg": msg, "both": strings.Contains(got[0], " | ") && strings.Contains(got[1], " | "), "obs": fmt.Sprint(got, msg)}
+	}
+	c.Run(vSplitExplorer(c, 0, 1), body, func(r *vx.Run) {
+		id := r.Note["id"].(string)
+		if r.Note["both"].(bool) {
+			c.Nontrivial(fmt.Sprint(id, r.Choices))
+		}
+		if m := r.Note["msg"].(string); m != "" {
+			c.Violate("c09_access_corpus:"+strings.SplitN(m, " is unordered", 2)[0], id+": "+m, r, m)
+		}
+	})
+	if !fired && c.Replay == nil && c.R.Evaluations > 0 {
+		panic("c09_access_corpus needs the v2access instrumentation profile: no access event fired")
+	}
+}
